@@ -115,6 +115,8 @@ class Engine(FsMixin, ExprMixin, StmtMixin, CallMixin, SpecMixin, BuiltinMixin, 
         self.glob_results = []
         self.seq_facts = {}     # name of a sequence constant -> [fn(k) -> z3 Bool]: element-wise facts, instantiated on access
         self.sorted_info = {}
+        self._closed_ok = set()
+        self.seq_lemmas = {}
         self.nstmts = self.nfeas = self.nawaits = 0
         self.entry_state = None
         self.loops = {}
@@ -126,6 +128,34 @@ class Engine(FsMixin, ExprMixin, StmtMixin, CallMixin, SpecMixin, BuiltinMixin, 
         self.loop_ordinals = {}
 
     # ------------------------------------------------------------------ loading real code
+    def check_closed_world(self, base):
+        """the registered subclasses of a closed class must be exactly the classes of the tree under check that derive
+        from it (test code excluded); otherwise the split would silently ignore a class"""
+        if base in self._closed_ok:
+            return
+        import glob as _glob
+        bases = {}
+        for path in _glob.glob(os.path.join(self.src.repo, SRC, "**", "*.py"), recursive=True):
+            if os.sep + "tests" + os.sep in path:
+                continue
+            try:
+                tree = ast.parse(open(path).read())
+            except (OSError, SyntaxError):
+                continue
+            for node in ast.walk(tree):
+                if isinstance(node, ast.ClassDef):
+                    bases.setdefault(node.name, set()).update(b.id if isinstance(b, ast.Name) else (b.attr if isinstance(b, ast.Attribute) else "?") for b in node.bases)
+        found, changed = set(), True
+        while changed:
+            changed = False
+            for c, bs in bases.items():
+                if c not in found and (base in bs or bs & found):
+                    found.add(c); changed = True
+        declared = set(self.reg.closed[base])
+        if found != declared:
+            raise Unsupported(f"closed-world assumption on {base} does not match the source: declared {sorted(declared)}, found {sorted(found)}")
+        self._closed_ok.add(base)
+
     def load(self, key, rel, qualname=None, inline=False, prop=False):
         """make the real function 'key' (Class.method or function) available"""
         qualname = qualname or key
